@@ -19,7 +19,13 @@ type ChanObj struct {
 type VChan struct{ C *ChanObj }
 
 func (e *Exec) chanRecvReady(c *ChanObj) bool { return c != nil && (len(c.Q) > 0 || c.Closed) }
-func (e *Exec) chanSendReady(c *ChanObj) bool { return c != nil && !c.Closed && len(c.Q) < c.Cap }
+func (e *Exec) chanSendReady(c *ChanObj) bool {
+	if c != nil && c.Cap == 0 && e.curCoro != nil {
+		// unbuffered, among cooperative goroutines: an offer can be made when none is pending
+		return !c.Closed && len(c.Q) == 0
+	}
+	return c != nil && !c.Closed && len(c.Q) < c.Cap
+}
 
 func (e *Exec) chanRecv(c *ChanObj) (Value, bool) {
 	if len(c.Q) > 0 {
@@ -251,10 +257,41 @@ func (e *Exec) doSelect(fr *frame, in *ssa.Select) Value {
 func init() {
 	noop := func(e *Exec, a []Value) Value { return nil }
 	for _, n := range []string{
-		"(*sync.Mutex).Lock", "(*sync.Mutex).Unlock", "(*sync.RWMutex).Lock", "(*sync.RWMutex).Unlock",
+		"(*sync.RWMutex).Lock", "(*sync.RWMutex).Unlock",
 		"(*sync.RWMutex).RLock", "(*sync.RWMutex).RUnlock",
 	} {
 		intrinsics[n] = noop
+	}
+	// sync.Mutex: sequential (no-op) outside RunGoroutines; among cooperative goroutines a
+	// held mutex blocks the next Lock until it is released
+	intrinsics["(*sync.Mutex).Lock"] = func(e *Exec, a []Value) Value {
+		if len(e.coros) == 0 {
+			return nil
+		}
+		c := a[0].(VPtr).C
+		for mutexHeld[c] {
+			e.blockedStep("on a held mutex")
+		}
+		mutexHeld[c] = true
+		return nil
+	}
+	intrinsics["(*sync.Mutex).Unlock"] = func(e *Exec, a []Value) Value {
+		if len(e.coros) == 0 {
+			return nil
+		}
+		delete(mutexHeld, a[0].(VPtr).C)
+		e.progress++
+		return nil
+	}
+	intrinsics["(*sync.Mutex).TryLock"] = func(e *Exec, a []Value) Value {
+		c := a[0].(VPtr).C
+		if len(e.coros) > 0 && mutexHeld[c] {
+			return VBool{BoolC(false)}
+		}
+		if len(e.coros) > 0 {
+			mutexHeld[c] = true
+		}
+		return VBool{BoolC(true)}
 	}
 	fieldV := func(a Value) *Cell {
 		c := a.(VPtr).C
@@ -436,6 +473,7 @@ func init() {
 }
 
 var onceDone = map[*Cell]bool{}
+var mutexHeld = map[*Cell]bool{}
 
 // strings.Builder with concrete contents (shadow state, reset per path together with onceDone)
 var builders = map[*Cell]string{}
